@@ -197,7 +197,8 @@ def case_stacks(cs):
         for nm, (notl, wgt, px, mult) in kidsnap.items():
             k = kinds[nm]
             if nm in spec["weights"]:
-                T = spec["weights"][nm] * base
+                row = list(run.frames[0].index).index(now)
+                T = w5.weight_at(spec, nm, row) * base
                 common.bump(cnt, "target_evals")
                 if k in ("fi", "cp"):
                     tol = 1e-9 * (1 + abs(T)) + (1.0 if spec["integer"] else 0.0)
